@@ -313,8 +313,9 @@ class Text(Widget):
             text, _attr = ta
         else:
             text, _attr = self.get_text()
-        self._cache_maxcol = maxcol
+        # the key last: a layout() that raises must not leave the old translation filed under the new width
         self._cache_translation = self.layout.layout(text, maxcol, self._align_mode, self._wrap_mode)
+        self._cache_maxcol = maxcol
 
     def pack(
         self,
